@@ -422,6 +422,18 @@ def _pc_rule(chk):
             chk.floors.pop('C08.PC', None)
 
 
+def check_models(chk, rule='C08.F'):
+    from ..progsim import run_models
+    n, problems = run_models(chk.repo, rule)
+    rmod = chk.repo.module('runtime')
+    for desc, msg in problems[:3]:
+        chk.bad(rule, rmod, 'execute_script', f'model: {desc}', f'whole-model evaluation: {msg}')
+    if not problems:
+        chk.ok(rule, f'{n} runs of hand-built jump-level models: result / error, logs and statement count as the documented statement semantics give them; the model is unchanged and a second '
+               f'run is identical', count=n)
+    return not problems
+
+
 def run(chk):
     chk.rule('C08.X', 'statement dispatch = schema union; label falls through', floor=6)
     chk.rule('C08.PC', 'program counter discipline (init, bound, +1 exactly once per path, assigned only in the jump branch)', floor=4)
@@ -436,15 +448,24 @@ def run(chk):
     chk.rule('C01.P', 'shared with C01: whole parsed programs evaluated (E9r): a function statement binds a global function when it executes (not before, again under another body later), '
              'return ends the script or function, jumps stay inside their statement list', floor=150)
     programs_ok = chk.guard('C01.P', check_programs, chk, 'C01.P', False)
+    chk.rule('C08.F', 'hand-built jump-level models with user labels evaluated whole (E9r): a function name bound again under another body, functions sharing label names with each other and '
+             'with the top level, nested loops over one label name, a jump to a label of the caller - documented statement semantics, model unchanged, second run identical', floor=8)
+    models_ok = chk.guard('C08.F', check_models, chk)
     from .c09 import check_budget
     chk.rule('C09.B', 'shared with C09: whole programs evaluated (E9r) under every statement limit - every statement of every statement list (script, functions called from statements and from '
              'jump conditions, includes) is started and counted once', floor=150)
-    programs_ok = bool(chk.guard('C09.B', check_budget, chk)) and bool(programs_ok)
+    programs_ok = bool(chk.guard('C09.B', check_budget, chk)) and bool(programs_ok) and bool(models_ok)
     chk.guard('C08.X', check_dispatch, chk)
     chk.guard('C08.E', check_step, chk)
     _pc_rule(chk)
-    chk.guard('C08.L', check_labels, chk)
-    chk.guard('C08.J', check_truthiness, chk)
+    # label lookup and jump truthiness as spelled in the loop: read-backs once the whole-program evaluations (parsed programs incl. a function name bound twice, budget sweeps) and
+    # the statement-loop evaluation on jump-level models with duplicate labels decided positively
+    rb = chk.advisory if programs_ok else chk.guard
+    rb('C08.L', check_labels, chk)
+    rb('C08.J', check_truthiness, chk)
+    if programs_ok:
+        for r in ('C08.L', 'C08.J', 'C08.R'):
+            chk.floors.pop(r, None)
     chk.guard('C08.M', check_immutability, chk)
     chk.guard('C08.A', check_arg_list, chk)
     # the statement count is part of the documented statement semantics: nested invocations count on the shared counter (shared with C09)
